@@ -120,14 +120,28 @@ def print_job(W=4):
                bounded_note='every canonical machine-word constant at word width %d (the most negative numerator goes through the GMP path); strings of at most 16 bytes' % W,
                proves='the text printed for a numeric constant denotes the constant (value and sign)')
 
+ALPHABETS = {'01dot': "01.", '07slash': "07/", 'minus03dot': "-03.", '09dotslash': "09./"}
+def small_alphabet_job(name, N):
+    # literals over a small alphabet: few digit values, every zero / non-zero / separator pattern -- this is what makes longer literals feasible (the cost is in the
+    # symbolic characters, not in the length: 10 bytes over {0,1,.} take 80 s where 6 arbitrary bytes exhaust the memory)
+    chars = ALPHABETS[name]
+    cond = ' || '.join(["s[k] == '%s'" % c for c in chars] + ['s[k] == 0'])
+    j = job('stringToRational.alphabet_%s' % name, 'opensmt::stringToRational', h_conv_class(cond), N, weight=40, checks=[])
+    j.defines = j.defines + ('OSMT_STATIC_MALLOC',)
+    j.bounded_note = 'value obligations only, exhaustive over all NUL-terminated strings of at most %d bytes over the alphabet {%s}' % (N, ' '.join(chars))
+    return j
+
 def jobs(tier, N=None):
+    if os.environ.get('C16_TRY_ALPHA'):
+        nm, n = os.environ['C16_TRY_ALPHA'].split(','); return [small_alphabet_job(nm, int(n))]
     N = N or (4 if tier == 'quick' else 5)
     return [job('isIntString', 'opensmt::isIntString', H_INT, N + 1), job('isRealString', 'opensmt::isRealString', H_REAL, N + 1),
             job('stringToRational', 'opensmt::stringToRational', H_CONV, N, weight=20),
             # (longer literals were tried and are NOT registered: all strings of 6 bytes exhaust MiniSat's and cadical's memory; one fixed shape d.ddddd of 7 bytes, with a static conversion
             #  buffer and shift-add value arithmetic, still does not finish in 30 min)
             Job('normalize.base', TU, 'opensmt::normalize', tier='R', header='contracts/C16/normalize.h', harness=H_BASE, enforce=False, pre_includes=('stubs/gmp_types.h',),
-                min_obligations=1, default_unwind=4, proves='normalize hands the literal to GMP with base 10')]
+                min_obligations=1, default_unwind=4, proves='normalize hands the literal to GMP with base 10')] + \
+           [small_alphabet_job(nm, 8 if tier == 'quick' else 10) for nm in ('01dot', '07slash', 'minus03dot', '09dotslash')]
     # print_job() (ArithLogic::termToSMT2StringImpl + FastRational::get_str over a concrete std::string/ostream model) is NOT registered: see DESIGN 3 C16
 
 def info(tier, results):
